@@ -113,6 +113,8 @@ vnacal_new_t *vnacal_new_alloc(vnacal_t *vcp, vnacal_type_t type,
     (void)memset((void *)vnp, 0, sizeof(vnacal_new_t));
     vnp->vn_magic = VN_MAGIC;
     vnp->vn_vcp = vcp;
+    vnp->vn_next.l_forw = &vnp->vn_next;	/* vnacal_new_free does remque */
+    vnp->vn_next.l_back = &vnp->vn_next;
     _vnacal_layout(&vnp->vn_layout, type, m_rows, m_columns);
     vnp->vn_frequencies = frequencies;
     if ((vnp->vn_frequency_vector = calloc(frequencies,
@@ -145,7 +147,6 @@ vnacal_new_t *vnacal_new_alloc(vnacal_t *vcp, vnacal_type_t type,
     vnp->vn_et_tolerance = VNACAL_NEW_DEFAULT_ET_TOLERANCE;
     vnp->vn_iteration_limit = VNACAL_NEW_DEFAULT_ITERATION_LIMIT;
     vnp->vn_pvalue_limit = VNACAL_NEW_DEFAULT_PVALUE_LIMIT;
-    vnp->vn_systems = systems;
     if ((vnp->vn_system_vector = calloc(systems,
 		    sizeof(vnacal_new_system_t))) == NULL) {
 	_vnacal_error(vcp, VNAERR_SYSTEM,
@@ -153,6 +154,7 @@ vnacal_new_t *vnacal_new_alloc(vnacal_t *vcp, vnacal_type_t type,
 	vnacal_new_free(vnp);
 	return NULL;
     }
+    vnp->vn_systems = systems;
     for (int i = 0; i < systems; ++i) {
 	vnacal_new_system_t *vnsp = &vnp->vn_system_vector[i];
 
